@@ -250,7 +250,7 @@ class Tr:
         if f == "len":
             return T("n")
         kc = KNOWN_CALLS.get(f)
-        if kc is not None and self.depth == 0 and not self.elementwise:
+        if kc is not None and not self.elementwise and all(k in self.env for k in kc[2]):
             lname, shape, implicit = kc
             a = [self.env[k] for k in implicit] + [self.e(x) for x in n.args]
             return T("call", a, shape, name=lname)
